@@ -60,6 +60,11 @@ def kinds():
     out.append(("lit-duration", "duration", lambda n: T.lit("duration", "P%dD" % (3 + n % 20))))
     for i, d in enumerate(["P3DT3H", "-P1DT2H30M", "P1Y1M1DT1H1M1S", "-P2Y2M", "PT5M5S", "P1DT1H"]):
         out.append(("lit-duration-multi%d" % i, "duration", lambda n, d=d: T.lit("duration", d)))
+    # accepted by the lexer, but no such calendar value: translation or a LIBRARY refusal
+    out.append(("lit-date-nonexistent", "date", lambda n: T.lit("date", "2021-02-%02d" % (30 + n % 2))))
+    out.append(("lit-date-zero-parts", "date", lambda n: T.lit("date", "2021-00-00")))
+    out.append(("lit-datetime-nonexistent", "datetime", lambda n: T.lit("datetime", "2021-04-31T05:%02d:07" % (n % 60))))
+    out.append(("lit-time-double-colon", "time", lambda n: T.lit("time", "11:%02d::07" % (n % 60))))
     out.append(("lit-geo", "geo", lambda n: T.lit("geo", "POINT(%d 2)" % n)))
     out.append(("ident-int", "int", lambda n: I("a")))
     out.append(("ident-str", "str", lambda n: I("s")))
